@@ -1,6 +1,7 @@
 #!/usr/bin/env python3
 """Regenerates /verif/MANIFEST.json from the claims table below."""
-import json, os
+import json, os, subprocess
+HOOK_COMMIT = subprocess.run(['git','-C','/repo','log','--format=%H','--grep=^hook(verif)','-1'],capture_output=True,text=True).stdout.strip()
 V = '/verif'
 props = [json.loads(l) for l in open(f'{V}/properties.jsonl')]
 TECH = "bounded symbolic execution of /repo's go/ssa + SMT (z3 4.8.12 / z3 5.1.0 / cvc5 1.0 portfolio); counterexamples replayed natively"
@@ -29,9 +30,9 @@ m = {
     "version": 1,
     "setup_cmd": "cd /verif/engine && GOFLAGS=-mod=mod GOPROXY=off GOSUMDB=off GOTOOLCHAIN=local go build -o /verif/bin/gosmt ./cmd/gosmt",
     "hooks": {"guard": "verif",
-              "enable": "none needed: harnesses are injected with go/packages and `go test -overlay` overlays (virtual /repo/zz_verif_*.go files); /repo contains no hook code",
+              "enable": "go test -tags verif (only the native replays of /verif use it: bufferPool.Put then overwrites the released buffer with 0xA5 so that use-after-release reproduces deterministically). Harnesses themselves are injected with go/packages and `go test -overlay` overlays (virtual /repo/zz_verif_*.go files), not committed to /repo",
               "baseline_off_cmd": "cd /repo && go test -mod=mod -json -vet=off -count=1 -timeout 25m ./...",
-              "source_commits": [], "add_only": True},
+              "source_commits": [HOOK_COMMIT], "add_only": True},
     "engines": [{"name": "gosmt", "path": "/verif/engine", "serves_properties": sorted(claims),
                  "kind_free_text": "SSA (go/ssa) symbolic interpreter + SMT-LIB2 back ends (z3 4.8.12, z3 5.1.0, cvc5 1.0); path forking by re-execution; native replay of solver models via go test -overlay"}],
     "checks": checks,
